@@ -126,7 +126,155 @@ def loop_modset(I, s, env):
     extra = []
     for c in calls:
         extra.extend(call_mods(I, c, env, 0))
-    return names, paths + extra
+    paths = paths + extra
+    return names, paths + alias_sources(I, s, env, names, paths)
+
+
+PURE_BUILTINS = {"float", "int", "str", "bool", "len", "abs", "min", "max", "round", "repr", "hash", "id", "sum",
+                 "range", "isinstance", "hasattr", "callable", "any", "all", "ord", "chr"}
+
+
+def _immutable_type(t):
+    if isinstance(t, (TList, TMap, TSet, TMutRec, TObj)):
+        return False
+    if type(t).__name__ in ("TDictRec", "TOptObj", "TFun"):
+        return False
+    if isinstance(t, TOpt):
+        return _immutable_type(t.inner)
+    if isinstance(t, TTuple):
+        return all(_immutable_type(x) for x in t.elems)
+    if isinstance(t, TRec):
+        return all(_immutable_type(x) for x in t.fields.values())
+    return True
+
+
+def _may_alias(e, I, env):
+    """names whose (mutable) value the value of expression e may be, or may contain, a reference to"""
+    if isinstance(e, ast.Name):
+        return {e.id}
+    if isinstance(e, (ast.Constant, ast.Compare, ast.JoinedStr, ast.UnaryOp, ast.Lambda)):
+        return set()
+    if isinstance(e, ast.BinOp):
+        return set()            # arithmetic / concatenation builds a new value
+    if isinstance(e, (ast.Subscript, ast.Attribute, ast.Starred)):
+        return _may_alias(e.value, I, env)
+    if isinstance(e, (ast.Tuple, ast.List, ast.Set)):
+        out = set()
+        for x in e.elts:
+            out |= _may_alias(x, I, env)
+        return out
+    if isinstance(e, ast.Dict):
+        out = set()
+        for x in e.values:
+            out |= _may_alias(x, I, env)
+        return out
+    if isinstance(e, ast.BoolOp):
+        out = set()
+        for x in e.values:
+            out |= _may_alias(x, I, env)
+        return out
+    if isinstance(e, ast.IfExp):
+        return _may_alias(e.body, I, env) | _may_alias(e.orelse, I, env)
+    if isinstance(e, ast.NamedExpr):
+        return _may_alias(e.value, I, env)
+    if isinstance(e, ast.Call):
+        f = e.func
+        args = list(e.args) + [k.value for k in e.keywords]
+        if isinstance(f, ast.Attribute):
+            # method call: the receiver (x.get(k), x.setdefault(k, d), x.items()) and the arguments (defaults)
+            out = _may_alias(f.value, I, env)
+            for x in args:
+                out |= _may_alias(x, I, env)
+            return out
+        if isinstance(f, ast.Name):
+            if f.id in PURE_BUILTINS and env.lookup(f.id) is None:
+                return set()
+            try:
+                v = env.lookup(f.id)
+                if v is None:
+                    v = I.ver.module_name(env.module, f.id, I)
+                c = I.ver.contracts.get(getattr(v, "qual", None)) if v is not None else None
+                if c is not None and c.returns is not None and _immutable_type(I.ver.types.parse(c.returns)):
+                    return set()        # contract declares an immutable result: nothing to alias
+            except Exception:
+                pass
+        out = set()
+        for x in args:
+            out |= _may_alias(x, I, env)
+        return out
+    # anything else: every name mentioned (conservative)
+    return {n.id for n in ast.walk(e) if isinstance(n, ast.Name)}
+
+
+def alias_sources(I, s, env, names, paths):
+    """A store through a name that is (re)bound inside the loop (`rec = edges.get(k); rec["w"] = x`,
+    `for k, rec in edges.items(): rec["w"] = x`) mutates whatever that name aliases: the names its binding
+    expressions may alias are added to the havoc set (transitively)."""
+    bound_from = {}
+
+    def note(target, value):
+        tn = set()
+        _target_names(target, tn)
+        src = _may_alias(value, I, env)
+        for t in tn:
+            bound_from.setdefault(t, set()).update(src)
+
+    for st in [s] + [n for b in list(s.body) + list(s.orelse) for n in ast.walk(b)]:
+        if isinstance(st, ast.Assign):
+            for t in st.targets:
+                note(t, st.value)
+        elif isinstance(st, ast.AnnAssign) and st.value is not None:
+            note(st.target, st.value)
+        elif isinstance(st, ast.For):
+            note(st.target, st.iter)
+        elif isinstance(st, ast.NamedExpr):
+            note(st.target, st.value)
+    # a mutation of the container itself (kvs.sort(), out.append(x), d[k] = v) through a name that is bound only to
+    # fresh containers (list(...), sorted(...), dict(...), [...], comprehension) cannot reach what the fresh container
+    # was built from; only stores *through its elements* (deeper paths) can
+    FRESH = {"list", "sorted", "dict", "set", "tuple", "deque", "OrderedDict"}
+
+    def fresh_value(v):
+        if isinstance(v, (ast.List, ast.Dict, ast.Set, ast.ListComp, ast.DictComp, ast.SetComp, ast.Tuple)):
+            return True
+        return isinstance(v, ast.Call) and isinstance(v.func, ast.Name) and v.func.id in FRESH
+
+    fresh_only = {}
+    for st in [n for b in list(s.body) + list(s.orelse) for n in ast.walk(b)]:
+        if isinstance(st, ast.Assign) and len(st.targets) == 1 and isinstance(st.targets[0], ast.Name):
+            nm = st.targets[0].id
+            fresh_only[nm] = fresh_only.get(nm, True) and fresh_value(st.value)
+        elif isinstance(st, (ast.For, ast.AnnAssign, ast.NamedExpr, ast.AugAssign)):
+            tn = set()
+            _target_names(getattr(st, "target", None) if not isinstance(st, ast.NamedExpr) else st.target, tn) if getattr(st, "target", None) is not None else None
+            for nm in tn:
+                if not (isinstance(st, ast.AnnAssign) and st.value is not None and fresh_value(st.value)):
+                    fresh_only[nm] = False
+
+    def propagates(p):
+        r = _root(p)
+        if isinstance(p, ast.Name) and fresh_only.get(r, False):
+            return False
+        if isinstance(p, ast.Subscript) and isinstance(p.value, ast.Name) and fresh_only.get(r, False):
+            return False
+        return True
+
+    todo = [r for r in (_root(p) for p in paths if not isinstance(p, str) and propagates(p)) if r in names]
+    seen = set()
+    out = []
+    while todo:
+        r = todo.pop()
+        if r in seen:
+            continue
+        seen.add(r)
+        for src in sorted(bound_from.get(r, ())):
+            if src in names:
+                todo.append(src)
+            if src not in seen:
+                nm = ast.Name(id=src, ctx=ast.Load())
+                nm._alias_src = True
+                out.append(nm)
+    return out
 
 
 def call_mods(I, call, env, depth):
